@@ -11,7 +11,7 @@ from types import SimpleNamespace
 import numpy as np
 
 import timinggen as tg
-from common import F, Toks, qtok
+from common import D, F, Toks, qtok
 
 ID = 'C07'
 GEN_SECTIONS = ['GenTiming', 'FP_timeline', 'FP_get_block']
@@ -333,7 +333,7 @@ def evaluate(ctx, case, do_kspace=False):
             fails.append(('calc_duration-decoded-vs-stored', {'block': i, 'calc': float(cd_dec[i]), 'stored': float(stored[i])}))
     # 2. duration()
     total = sum(stored.values())
-    dur, nblk, _ = seq.duration()
+    dur, nblk, evcount = seq.duration()
     if nblk != len(ids) or not close(F(dur), total, scale):
         fails.append(('duration()', {'got': [float(dur), nblk], 'expected': [float(total), len(ids)]}))
     # 3. time axes
@@ -342,6 +342,7 @@ def evaluate(ctx, case, do_kspace=False):
         starts.append(acc)
         acc += stored[i]
     ds = [tg.decode(seq, i) for i in ids]
+    ds_model = ds
     adc, rfx, rfr, axes, wave = expected_axes(seq, ds, starts)
     try:
         wd, tfp_e, tfp_r, t_adc, _ = seq.waveforms_and_times()
@@ -353,6 +354,7 @@ def evaluate(ctx, case, do_kspace=False):
     except Exception as e:  # noqa: BLE001
         fails.append(('waveforms_and_times-raises', {'exception': repr(e)}))
         wd = None
+    tr_results = []
     # time_range variants: every block that overlaps the window is returned, on the SAME time axis as without a window
     if float(total) > 0:
         r = ctx_rng(case)
@@ -380,6 +382,8 @@ def evaluate(ctx, case, do_kspace=False):
                     shifted = [g for g in gv if nearest_dist(fv, g) > ftol]
                     if shifted:
                         fails.append(('time_range-' + name + '-shifted', {'time': shifted[0], 'range': [a, b]}))
+                tr_results.append({'a': a, 'b': b, 'adc': list(ta), 'rfx': list(te), 'rfr': list(tr_),
+                                   'wave': [list(np.real(wdt[j][0])) for j in range(3)]})
                 ctx.count('time_range.windows')
             except Exception as e:  # noqa: BLE001
                 fails.append(('time_range-raises', {'exception': repr(e), 'range': [a, b]}))
@@ -459,7 +463,8 @@ def evaluate(ctx, case, do_kspace=False):
             if d[k] is not None:
                 ctx.count('event.' + (d[k]['kind'] if k != 'rf' else 'rf'))
     return {'seq': seq, 'inputs': inputs, 'ids': ids, 'stored': stored, 'cd_in': cd_in, 'ds': ds, 'starts': starts, 'adc': adc,
-            'rfx': rfx, 'rfr': rfr, 'wave': wave, 'wd': wd, 'cols': cols, 'total': total, 'scale': scale, 'failed': bool(fails)}
+            'rfx': rfx, 'rfr': rfr, 'wave': wave, 'wd': wd, 'cols': cols, 'total': total, 'scale': scale, 'failed': bool(fails),
+            'ds_model': ds_model, 'tr': tr_results, 'evcount': [int(v) for v in evcount]}
 
 
 def ctx_rng(case):
@@ -480,8 +485,15 @@ def compare_model(ctx, items):
             evs = [a for a in args if a.startswith('E')]
             lines.append('timing.calcdur %d %s' % (len(evs), ' '.join(evs)))
             index.append((ci, 'calcdur', i))
-        lines.append('timing.timeline %s %s' % (tg.sys_tok(tg.sys_fr(it['seq'])), tg.blocks_tok(it['ds'])))
+        lines.append('timing.timeline %s %s' % (tg.sys_tok(tg.sys_fr(it['seq'])), tg.blocks_tok(it['ds_model'])))
         index.append((ci, 'timeline', None))
+        lines.append('timing.counts %s' % tg.blocks_tok(it['ds_model']))
+        index.append((ci, 'counts', None))
+        for wi, w in enumerate(it['tr']):
+            if wi not in (0, 3) and ctx.tier == 'quick':     # model evaluation of exact rationals is the slow part
+                continue
+            lines.append('timing.tr %s %s %s %s' % (tg.sys_tok(tg.sys_fr(it['seq'])), tg.blocks_tok(it['ds_model']), qtok(F(w['a'])), qtok(F(w['b']))))
+            index.append((ci, 'tr', wi))
     outs = ctx.model(lines)
     bad = set()
     for (ci, what, i), o in zip(index, outs):
@@ -493,6 +505,45 @@ def compare_model(ctx, items):
             v = Toks(o).q()
             if not close(v, it['stored'][i], sc):
                 ctx.mismatch('set_block_duration', case, {'block': i, 'model': float(v), 'impl': float(it['stored'][i])})
+                bad.add(ci)
+        elif what == 'counts':
+            t = Toks(o)
+            mc = t.list(t.z)
+            if mc != it['evcount']:
+                ctx.mismatch('event_count', case, {'model': mc, 'impl': it['evcount']})
+                bad.add(ci)
+        elif what == 'tr':
+            w = it['tr'][i]
+            parts = [Toks(p) for p in o.split('|')]
+            madc = parts[1].list(parts[1].q)
+            n = parts[2].int()
+            mrf = [(parts[2].z(), parts[2].q()) for _ in range(n)]
+            detail = None
+            if len(madc) != len(w['adc']) or any(not close(a, F(b), sc) for a, b in zip(madc, w['adc'])):
+                detail = {'what': 'adc_times', 'model_n': len(madc), 'impl_n': len(w['adc'])}
+            mx = [t for u, t in mrf if u == 0]
+            mr = [t for u, t in mrf if u == 1]
+            if detail is None and (len(mx) != len(w['rfx']) or len(mr) != len(w['rfr'])
+                                   or any(not close(a, F(b), sc) for a, b in zip(mx, w['rfx']))
+                                   or any(not close(a, F(b), sc) for a, b in zip(mr, w['rfr']))):
+                detail = {'what': 'rf_times', 'model_n': [len(mx), len(mr)], 'impl_n': [len(w['rfx']), len(w['rfr'])]}
+            if detail is None:
+                ftol = float(tol(sc))
+                for j, p in enumerate(parts[3:6]):
+                    n = p.int()
+                    ax = np.sort(np.asarray(w['wave'][j], dtype=float))
+                    for _ in range(n):
+                        a, b = p.q(), p.q()
+                        if nearest_dist(ax, float(a)) > ftol or nearest_dist(ax, float(b)) > ftol:
+                            detail = {'what': 'wave-axis-%d' % j, 'first': float(a), 'last': float(b)}
+                            break
+                    if detail is None and n == 0 and len(ax) > 0:
+                        detail = {'what': 'wave-axis-%d' % j, 'model_pieces': 0, 'impl_points': len(ax)}
+                    if detail:
+                        break
+            if detail:
+                detail['range'] = [w['a'], w['b']]
+                ctx.mismatch('time_range', case, detail)
                 bad.add(ci)
         elif what == 'calcdur':
             v = Toks(o).q()
